@@ -1,5 +1,5 @@
 """One entry per property: which rules run over which configurations."""
-from rules import fd, tls, router, decode, send, mem
+from rules import fd, tls, router, decode, send, mem, recv
 
 LEVEL = {}
 
@@ -151,11 +151,102 @@ def check_C18(ctx):
     ctx.assume("ptr::copy_nonoverlapping with count 0 accepts any pointer (deliberately not a NULL-GUARD sink)")
 
 
+LEVEL["C10"] = ("Decides the structural clause of C10 only: O_NONBLOCK set for a non-blocking receive is cleared again on every feasible path to return (NB-PAIR); "
+                "the three receive entry points of each layer call their own counterpart with the right mode and the caller's duration (MODE-TABLE); follow-up "
+                "fragments are read blocking (FOLLOWUP-BLOCKING); an expired poll yields EAGAIN and hence Empty, a ready poll goes on to read (TIMEOUT-ARM, ERR-MAP). "
+                "Not decided: elapsed time, early wake-up by the kernel, O_NONBLOCK shared with duplicates of the descriptor.")
+
+
+def check_C10(ctx):
+    for cfg, F in ctx.configs(["K1", "K2"]):
+        recv.rule_nb_pair(ctx, cfg, F)
+        ctx.rule("NB-PAIR").floor("setfl_sites[%s]" % cfg, 2, cfg)
+        recv.rule_followup_blocking(ctx, cfg, F)
+        ctx.rule("FOLLOWUP-BLOCKING").floor("followup_reads[%s]" % cfg, 1, cfg)
+        recv.rule_timeout_arm(ctx, cfg, F)
+        ctx.rule("TIMEOUT-ARM").floor("poll_sites[%s]" % cfg, 1, cfg)
+    for cfg, F in ctx.configs(["K1", "K3"]):
+        recv.rule_mode_table(ctx, cfg, F)
+        ctx.rule("MODE-TABLE").floor("entry_points[%s]" % cfg, 8, cfg)
+        recv.rule_err_map(ctx, cfg, F)
+        ctx.rule("ERR-MAP").floor("conversions[%s]" % cfg, 2, cfg)
+    ctx.assume("poll(2)/recvmsg(2) semantics; crossbeam recv_timeout honours its argument")
+
+
+LEVEL["C03"] = ("Decides the structural clause of C03 only: the closed class and the would-block class of the platform error are mapped to Disconnected and Empty "
+                "exactly (ERR-MAP, both backends); a zero-length recvmsg is the only origin of 'closed' on the channel's descriptor and a negative one yields "
+                "Errno (ZERO-READ); the in-process variants follow crossbeam's classes (ERR-CLASS-INPROC); the sender's descriptor is closed only by the last "
+                "shared handle (FD-DROP / FD-CLOSE-OWNED of C11) and the library itself retains no sender (TLS-RESTORE of C14). Not decided: kernel reference "
+                "counting of descriptors in transit, wake-up of a blocked receive, races between the last drop and a receive.")
+
+
+def check_C03(ctx):
+    for cfg, F in ctx.configs(["K1", "K2", "K3"]):
+        recv.rule_err_map(ctx, cfg, F)
+        ctx.rule("ERR-MAP").floor("conversions[%s]" % cfg, 2, cfg)
+    for cfg, F in ctx.configs(["K1", "K2"]):
+        recv.rule_zero_read(ctx, cfg, F)
+        ctx.rule("ZERO-READ").floor("recvmsg_sites[%s]" % cfg, 1, cfg)
+        model = fd.build_model(F)
+        fd.rule_fd_drop(ctx, cfg, F, model)
+        fd.rule_close_owned(ctx, cfg, F, model)
+        _sender_shape(ctx, cfg, F)
+    for cfg, F in ctx.configs(["K3"]):
+        recv.rule_inproc_classes(ctx, cfg, F)
+        ctx.rule("ERR-CLASS-INPROC").floor("receive_variants[%s]" % cfg, 3, cfg)
+    for cfg, F in ctx.configs(["K1", "K3"]):
+        tls.rule_tls_restore(ctx, cfg, F)
+    ctx.assume("descriptors in SCM_RIGHTS transit keep the peer open; the kernel delivers EOF only when every copy of the sending end is closed")
+
+
+def _sender_shape(ctx, cfg, F):
+    R = ctx.rule("SENDER-SHARED", "the unix sender holds its descriptor behind Arc<SharedFileDescriptor>, has no Drop of its own and its Clone does not duplicate the descriptor: the descriptor is closed exactly when the last clone drops")
+    a = F.adts.get("platform::unix::OsIpcSender")
+    if not a:
+        R.violate("anchor-missing:OsIpcSender", "no unix OsIpcSender type", config=cfg)
+        return
+    tys = [fl["t"] for fl in a["variants"][0]["fields"]]
+    arc = any(t.startswith("std::sync::Arc<") for t in tys)
+    has_drop = bool(a.get("drop"))
+    clone = F.fns.get("<platform::unix::OsIpcSender as std::clone::Clone>::clone")
+    dup = clone is not None and any(strip(t) in ("libc::dup", "libc::fcntl", "libc::dup2", "libc::dup3") for _, t in clone.calls())
+    if arc and not has_drop and clone is not None and not dup:
+        R.ok("OsIpcSender{%s}: Arc-shared descriptor, no Drop, Clone copies the Arc" % ", ".join(tys), clone.loc(0), cfg)
+    else:
+        R.violate("OsIpcSender:shape", "sender shape changed: arc=%s drop=%s clone=%s dup-in-clone=%s" % (arc, has_drop, clone is not None, dup), "platform::unix::OsIpcSender", config=cfg)
+
+
+def strip(t):
+    from vlib.mir import callee_name, strip_generics
+    return strip_generics(callee_name(t))
+
+
+LEVEL["C12"] = ("Decides two receiver-side clauses of C12: a short, zero or failed follow-up read can never reach an Ok return and every Ok return follows a "
+                "received >= total edge (TRUNC-ERR); 'closed' may originate only from the channel's own descriptor (CLOSED-ORIGIN) -- today it also "
+                "originates from the per-message socket, recorded as a known finding. The sender side is FRAG-ROUTE + RAII (C02/C11). Not decided: anything "
+                "about when the sending process dies, delivery of earlier messages, receiver liveness.")
+
+
+def check_C12(ctx):
+    for cfg, F in ctx.configs(["K1", "K2"]):
+        recv.rule_trunc_err(ctx, cfg, F)
+        ctx.rule("TRUNC-ERR").floor("followup_reads[%s]" % cfg, 1, cfg)
+        recv.rule_closed_origin(ctx, cfg, F)
+        ctx.rule("CLOSED-ORIGIN").floor("closed_constructions[%s]" % cfg, 2, cfg)
+    ctx.assume("a dying sender closes both ends of its per-message socketpair (kernel), so the follow-up read returns 0")
+
+
 # --------------------------------------------------------------------------- registry metadata
 NOT_APPLICABLE = {}
 WITNESS_PROPS = []
 _TECH = "static analysis over rustc MIR facts: "
 META = {
+    "C10": {"technique": _TECH + "path-sensitive set/restore pairing of O_NONBLOCK, constant-operand and provenance rules on the receive entry points",
+            "note": "trusted: poll/recvmsg/fcntl semantics; timing is not decided"},
+    "C03": {"technique": _TECH + "path summaries of the error conversions (variant and errno edges vs constructed result), result-sign edges of recvmsg",
+            "note": "trusted: kernel EOF semantics for SEQPACKET sockets and descriptors in transit"},
+    "C12": {"technique": _TECH + "path-sensitive relation tracking of follow-up read results against Ok returns; origin of the closed variant by dominating read",
+            "note": "crash points themselves are runtime; only the receiver-side consequences are decided"},
     "C18": {"technique": _TECH + "nullness provenance with dominance guards, symbolic justification of set_len operands, allocation typestate",
             "note": "three necessary conditions only; no memory-safety proof of the unsafe blocks"},
     "C15": {"technique": _TECH + "interval analysis of the descriptor vector's length along feasible paths with comparison refinement",
